@@ -17,6 +17,8 @@ import Hy.Drv.Brutal
 import Hy.Drv.Gecko
 import Hy.Drv.PortUnion
 import Hy.Drv.Hop
+import Hy.Drv.UdpAcl
+import Hy.Drv.UdpSession
 
 open Hy.Drv
 
@@ -55,4 +57,6 @@ def main (args : List String) : IO UInt32 := do
   | ["gecko"] => loopState stdin stdout Gecko.step Gecko.init; return 0
   | ["portunion"] => loopPure stdin stdout PortUnion.step; return 0
   | ["hop"] => loopState stdin stdout Hop.step Hop.init; return 0
+  | ["udpacl"] => loopState stdin stdout UdpAcl.step UdpAcl.init; return 0
+  | ["udpsession"] => loopState stdin stdout UdpSession.step UdpSession.init; return 0
   | _ => IO.eprintln "usage: hydrv <component>"; return 2
